@@ -14,6 +14,8 @@ def make(path, n, bs, q, rng=None, is2d=False, version=None, il=None, xl=None, z
     il = il or (int(rng.integers(-30, 300)), int(rng.choice([1, 2, 5, -1, -3])))
     xl = xl or (int(rng.integers(-30, 3000)), int(rng.choice([1, 3, 4, -2])))
     z = z or (int(rng.integers(-100, 500)), int(rng.choice([4000, 2000, 1000, 500, 1001, 333])))
+    if version <= spec.V_0_1_6 and z[1] % 1000:
+        z = (z[0], 1000 * (z[1] // 1000 + 1))   # interval in whole milliseconds up to 0.1.6
     grid = n[1] if is2d else n[0] * n[1]
     mask = None
     tracecount = grid
